@@ -952,6 +952,12 @@ m("c10-escrow-not-bracketed", "C10", "x/erc20/keeper/msg_server.go",
 m("c02-getaccount-ignores-bank-balance", "C02", "x/evm/keeper/statedb.go",
   "\t\tif balance := k.GetBalance(ctx, addr); balance.Sign() > 0 {", "\t\tif balance := new(big.Int); balance.Sign() > 0 {",
   "nil-only-after-the-bank-balance", "GetAccount no longer looks at the bank balance of an account-less address")
+m("c05-precompile-commits-instead-of-flushing", "C05", "precompiles/distribution/distribution.go",
+  "\tif err := stateDB.Flush(); err != nil {", "\tif err := stateDB.Commit(); err != nil {",
+  "(precompiles/distribution.Precompile).Run#flushes-without-deleting", "a precompile carries out pending SELFDESTRUCTs when it flushes")
+m("c05-flush-deletes-selfdestructed", "C05", "x/evm/statedb/statedb.go",
+  "\t\tif obj.suicided && deleteSuicided {", "\t\tif obj.suicided || deleteSuicided && obj.suicided {",
+  "delete-only-when-final", "the write-back loop deletes self-destructed accounts on every flush")
 for prop in ("C16", "C07"):
     m("c%s-gas-meter-without-precharge" % prop[1:], prop, "precompiles/common/precompile.go",
       "sdk.NewGasMeter(initialGas + contract.Gas)", "sdk.NewGasMeter(contract.Gas)",
